@@ -1055,6 +1055,23 @@ def Obj.solid (interior : Region α) (excluded : Option (Region α))
         | some (.outside, w) => [.neg (.shape w)]
         | none => []))
 
+/-- `PolyCone::or_solid` / `PolyPrism::or_solid` for ONE axial segment [zlo, zhi]: the solid of
+    half-height (zhi − zlo)/2 built about z = 0 and wrapped in `Transformed{Translation{0,0,dz}}`
+    whenever dz = (zhi + zlo)/2 is non-zero (of either sign) -/
+def Obj.polySingle (zlo zhi : α) (mk : α → Region α) (mkInner : Option (α → Region α))
+    (angle : Option (Sense × Region α)) : Obj α :=
+  let hh := (zhi - zlo) / (2 : α)
+  let dz := (zhi + zlo) / (2 : α)
+  let o := Obj.solid (mk hh) (mkInner.map fun f => f hh) angle
+  if Num.ne dz (0 : α) then .xformed (.tra ⟨(0 : α), (0 : α), dz⟩) o else o
+
+/-- one segment of `construct_segments` (multi-segment PolyCone / PolyPrism `build`): outer and
+    not inner, under `Translation{0, 0, zlo + hz}`, hz = (zhi − zlo)/2 -/
+def Obj.polySegment (zlo zhi : α) (mk : α → Region α) (mkInner : Option (α → Region α)) : Obj α :=
+  let hz := (zhi - zlo) / (2 : α)
+  .xformed (.tra ⟨(0 : α), (0 : α), zlo + hz⟩)
+    (.all ([.shape (mk hz)] ++ (match mkInner with | some f => [.neg (.shape (f hz))] | none => [])))
+
 mutual
 /-- SPEC membership of an object: pointwise and / or / not; a translated object contains p iff
     the original contains p − t -/
